@@ -487,5 +487,58 @@ pub fn run(ctx: &Ctx) -> Report {
         }
     });
     rep.sample(json!({"text": "doel <= = a * 7 + f ( x , 1 )", "means": "doel = doel <= (a * 7 + f(x, 1))"}));
+    wide_trees(&mut rep, seed);
     rep
+}
+
+/// (4) wide trees: n siblings in one list (array elements, arguments, statements of a program / a block / a function body,
+/// parameters, rows of a table), each sibling a small tree. The tree is only a few levels deep whatever n is, so no limit
+/// on nesting applies; the text must still denote exactly this tree.
+fn wide_trees(rep: &mut Report, seed: u64) {
+    let element = |kind: usize, k: usize| -> Expr {
+        let a = ident(["a", "b", "c"][k % 3]);
+        match kind {
+            0 => a,
+            1 => infix(a, Operator::Add, int((k % 7) as i64)),
+            2 => array(vec![a, int(1)]),
+            3 => calln("f", vec![a, int(2)]),
+            _ => infix(infix(a, Operator::Multiply, int(2)), Operator::Subtract, calln("f", vec![int(1)])),
+        }
+    };
+    let mut runner = crate::tape::runner(seed.wrapping_mul(40_503), 1);
+    for n in [2usize, 10, 200, 998, 999, 1000, 1001, 1500, 5000] {
+        for kind in 0..5 {
+            let items: Vec<Expr> = (0..n).map(|k| element(kind, k)).collect();
+            let stmts: BlockStmt = items.iter().cloned().map(es).collect();
+            let rows = (n as f64).sqrt() as usize + 1;
+            let table = array((0..rows).map(|i| array((0..rows).map(|j| element(kind, i * rows + j)).collect())).collect());
+            let params: Vec<String> = (0..n).map(|k| format!("p{k}")).collect();
+            let params_ref: Vec<&str> = params.iter().map(|s| s.as_str()).collect();
+            let trees: Vec<(&str, BlockStmt)> = vec![
+                ("array-elements", vec![es(array(items.clone()))]),
+                ("arguments", vec![es(calln("g", items.clone()))]),
+                ("program-statements", stmts.clone()),
+                ("block-statements", vec![Stmt::Block(stmts.clone()), es(int(1))]),
+                ("function-body", vec![es(func("h", &[], stmts.clone())), es(int(1))]),
+                ("if-branch", vec![es(iff(boolean(true), stmts.clone(), Some(stmts.clone())))]),
+                ("loop-body", vec![es(whil(boolean(false), stmts.clone()))]),
+                ("parameters", vec![es(func("h", &params_ref, vec![es(int(1))])), es(int(1))]),
+                ("table", vec![let_("t", table)]),
+            ];
+            for (family, prog) in trees {
+                use proptest::prelude::RngCore;
+                let mut lt = vec![0u8; 4096];
+                runner.rng().fill_bytes(&mut lt);
+                rep.count("wide-trees");
+                rep.nontrivial(&format!("wide:{family}:{n}:{kind}"));
+                if let Err((class, text, expect, got)) = check_tree(rep, "wide", &prog, Some(&lt), 1, true) {
+                    let mut v = viol("wide", &format!("{class}:{family}"), &text, &expect, &got);
+                    v.expected = format!("the tree with {n} siblings ({family}, element kind {kind}) that the text was printed from");
+                    v.observed = got.chars().take(300).collect();
+                    rep.violation(v);
+                }
+            }
+        }
+    }
+    rep.sample(json!({"wide": "[a, b + 1, c + 2, ... 1000 elements]", "expects": "the flat tree, however many siblings"}));
 }
